@@ -216,6 +216,16 @@ func Eq(a, b Term) Term {
 	if !a.Sort.Eq(b.Sort) {
 		panic(fmt.Sprintf("Eq: sort mismatch %s:%s vs %s:%s", a.S, a.Sort, b.S, b.Sort))
 	}
+	if a.Sort.K == KInt {
+		if x, ok := litValue(a.S); ok {
+			if y, ok := litValue(b.S); ok {
+				return BoolLit(x == y)
+			}
+		}
+	}
+	if a.Sort.K == KBool && (a.S == "true" || a.S == "false") && (b.S == "true" || b.S == "false") {
+		return BoolLit(a.S == b.S)
+	}
 	return app(SBool, "=", a, b)
 }
 
@@ -232,6 +242,25 @@ func Ite(c, a, b Term) Term {
 		return a
 	}
 	return app(a.Sort, "ite", c, a, b)
+}
+
+// litValue parses integer literals including negative ones "(- n)".
+func litValue(s string) (string, bool) {
+	if strings.HasPrefix(s, "(- ") && strings.HasSuffix(s, ")") {
+		inner := s[3 : len(s)-1]
+		for _, c := range inner {
+			if c < '0' || c > '9' {
+				return "", false
+			}
+		}
+		return "-" + inner, inner != ""
+	}
+	for _, c := range s {
+		if c < '0' || c > '9' {
+			return "", false
+		}
+	}
+	return s, s != ""
 }
 
 func isIntLit(t Term) (int64, bool) {
@@ -278,11 +307,45 @@ func IX(off, i Term) Term {
 	}
 	return app(SInt, "ix", off, i)
 }
-func Neg(a Term) Term    { return app(SInt, "-", a) }
-func Lt(a, b Term) Term  { return app(SBool, "<", a, b) }
-func Le(a, b Term) Term  { return app(SBool, "<=", a, b) }
-func Gt(a, b Term) Term  { return app(SBool, ">", a, b) }
-func Ge(a, b Term) Term  { return app(SBool, ">=", a, b) }
+func Neg(a Term) Term { return app(SInt, "-", a) }
+func cmpLit(a, b Term) (int, bool) {
+	x, ok1 := isIntLit(a)
+	y, ok2 := isIntLit(b)
+	if !ok1 || !ok2 {
+		return 0, false
+	}
+	switch {
+	case x < y:
+		return -1, true
+	case x > y:
+		return 1, true
+	}
+	return 0, true
+}
+func Lt(a, b Term) Term {
+	if c, ok := cmpLit(a, b); ok {
+		return BoolLit(c < 0)
+	}
+	return app(SBool, "<", a, b)
+}
+func Le(a, b Term) Term {
+	if c, ok := cmpLit(a, b); ok {
+		return BoolLit(c <= 0)
+	}
+	return app(SBool, "<=", a, b)
+}
+func Gt(a, b Term) Term {
+	if c, ok := cmpLit(a, b); ok {
+		return BoolLit(c > 0)
+	}
+	return app(SBool, ">", a, b)
+}
+func Ge(a, b Term) Term {
+	if c, ok := cmpLit(a, b); ok {
+		return BoolLit(c >= 0)
+	}
+	return app(SBool, ">=", a, b)
+}
 
 // storeParts remembers the structure of store terms (and of the names given to
 // them) so that reads can be resolved syntactically (read-over-write).
@@ -483,11 +546,11 @@ type Sym struct {
 }
 
 type Ctx struct {
-	syms   map[string]*Sym
-	order  []string
-	n      int
+	syms     map[string]*Sym
+	order    []string
+	n        int
 	noDefine int
-	axioms []*Sym // global axioms, included when any of their trigger symbols is used
+	axioms   []*Sym // global axioms, included when any of their trigger symbols is used
 }
 
 func NewCtx() *Ctx {
